@@ -72,6 +72,10 @@ func (l *Life) EngineFailures(class string, tag string) {
 	var batches [][]Doc
 	if class == "ivf" {
 		batches = [][]Doc{vecBatch(l, 620, 0, "v2", 2), vecBatch(l, 560, 1000, "v2", 2)}
+	} else if class == "chain" {
+		// the first input keeps the field's name but loses all its vectors to deletions; two inputs with live
+		// vectors follow (the merger reads one native index per input that still has vectors)
+		batches = [][]Doc{vecBatch(l, 3, 0, "v2", 2), vecBatch(l, 4, 100, "v2", 2), vecBatch(l, 5, 200, "v2", 2)}
 	} else if class == "big" {
 		// a merge of several thousand vectors: whatever the merger does piecewise (batched adds, batched
 		// reconstruction) makes more than one engine call, and each of them is failed in turn
@@ -83,7 +87,7 @@ func (l *Life) EngineFailures(class string, tag string) {
 	}
 	// ---- builds
 	for bi, b := range batches {
-		if class == "big" || (class == "ivf" && bi > 0) {
+		if class == "big" || class == "chain" || (class == "ivf" && bi > 0) {
 			break
 		}
 		if class == "ivf" {
@@ -134,6 +138,13 @@ func (l *Life) EngineFailures(class string, tag string) {
 	drops := make([]Drop, len(ins))
 	for i := range drops {
 		drops[i] = Drop{Nil: true, Ds: Ints{}}
+		if i == 0 && class == "chain" {
+			all := Ints{}
+			for d := 0; d < ins[i].ndocs; d++ {
+				all = append(all, d)
+			}
+			drops[i] = Drop{Ds: all}
+		}
 		if i > 0 && class == "flat" {
 			drops[i] = randDrop(l.r, ins[i].ndocs)
 		}
